@@ -142,3 +142,4 @@ def run(prog, chk):
     R.share_idiom(prog, chk, "C07.e2", ("Variant",), floor=4)
     R.acquire_before_release(prog, chk, "C07.f", ("Variant",), floor=1)
     R.own_payload_after_release(prog, chk, "C07.h", fams=("Variant",), floor=8)
+    R.argument_after_release(prog, chk, "C07.i", fams=("Variant",), floor=3)
